@@ -195,6 +195,17 @@ impl<'tcx> Ex<'tcx> {
         if let Some(si) = c.const_.try_eval_scalar_int(self.tcx, env) {
             return arr(vec![s("k"), tyj, self.scalar_int_json(si, t)]);
         }
+        // pointers to statics: name the static
+        if !matches!(c.const_, mir::Const::Unevaluated(..)) || true {
+            if let Some(Scalar::Ptr(p, _)) = c.const_.try_eval_scalar(self.tcx, env) {
+                let aid = p.provenance.alloc_id();
+                if let Some(rustc_middle::mir::interpret::GlobalAlloc::Static(d)) =
+                    self.tcx.try_get_global_alloc(aid)
+                {
+                    return arr(vec![s("k"), tyj, arr(vec![s("static"), s(self.id(d))])]);
+                }
+            }
+        }
         // string literals and other non-scalar constants
         let txt = format!("{}", c.const_);
         let mut v = vec![s("k"), tyj, arr(vec![s("?"), s(txt)])];
